@@ -107,8 +107,12 @@ class StorageTools:
         path = os.path.join(profile_dir, name)
         logger.debug("Writing %s" % path)
 
-        with open(path, 'w' if type(val) is str else 'wb') as attrFile:
+        # write to a temporary file first and move it into place, so that a crash while writing
+        # cannot leave a truncated file behind (the config holds the account's key pair)
+        tmp_path = path + ".tmp"
+        with open(tmp_path, 'w' if type(val) is str else 'wb') as attrFile:
             attrFile.write(val)
+        os.replace(tmp_path, path)
 
     @staticmethod
     def readProfileData(profile_name, name, default=None):
